@@ -7,6 +7,7 @@ package c04
 
 import (
 	"fmt"
+	"github.com/jcmturner/gokrb5/v8/zzverif/vnet"
 	"os"
 	"runtime"
 	"runtime/debug"
@@ -254,6 +255,10 @@ func runOne(e *entry, sub int, in []byte, r engine.Reporter, what func() interfa
 	if pval != nil {
 		if len(stack) > 3000 {
 			stack = stack[:3000]
+		}
+		if rw, ok := pval.(vnet.Runaway); ok {
+			r.Violate("inputs", "does-not-terminate:"+e.name+":unbounded-exchanges", map[string]interface{}{"what": rw.String()}, rec())
+			return
 		}
 		r.Violate("inputs", "panic:"+e.name+":"+panicSite(stack), map[string]interface{}{"panic": fmt.Sprint(pval), "stack": stack}, rec())
 		return
